@@ -299,7 +299,7 @@ Qed.
 
 Lemma append_cstart c t : cstart (Bits.append false c t) = 0.
 Proof.
-  unfold Bits.append, append_bits_mut, detach.
+  unfold Bits.append, append_bits_mut, detach. cbn [andb].
   destruct (clen c =? 0); cbn [cstart]; destruct (_ && _); reflexivity.
 Qed.
 
